@@ -54,6 +54,8 @@ def keyfn(row):
     ev = row.get("ev")
     if ev == "Crash":
         return "map32:crash:%s" % re.sub(r"0x[0-9a-f]+|\d+", "#", row.get("msg", ""))[:80]
+    if ev == "Hang":
+        return "map32:hang"
     if ev == "Reset":
         return "map32:initial-state"
     if ev != "Op":
@@ -171,8 +173,8 @@ def run(ctx):
             ("t6", 6, 3, tree(6, 3, 3, 4, "pr,raw", R)),
             ("f4", 4, 2, tree(4, 2, 2, 4, "pr,raw")),
             ("f5", 5, 3, tree(5, 3, 3, 3, "pr,raw")),
-            ("l32", 5, 3, tree(5, 3, 3, 3, "pr,raw", R + ["--layout", "32bit"])),
-            ("l64", 5, 3, tree(5, 3, 3, 3, "pr,raw", R + ["--layout", "default64"])),
+            ("l32", 5, 3, tree(5, 3, 3, 3, "pr,raw", R + ["--layout", "32bit", "--offset", 0])),
+            ("l64", 5, 3, tree(5, 3, 3, 3, "pr,raw", R + ["--layout", "default64", "--offset", 5000])),
             ("r24", 24, 3, rnd(24, 3, 4, 25, 600)),
             ("r64", 64, 3, rnd(64, 3, 6, 15, 1000)),
             ("r64b", 64, 3, rnd(64, 3, 6, 5, 1000, ["--layout", "32bit"])),
